@@ -10,13 +10,15 @@ LEVEL = 'exploration'
 KNOWN = {'glued-marker': 'C07-diff3-glued-marker'}
 
 
-def flag_case(rnd):
+def flag_case(rnd, big=False):
     """id-aligned cells where both sides rewrite the same line(s) differently"""
     from bounded import nbspace
-    nlines = rnd.choice([2, 4, 16])
-    lines = ['stmt_%02d = %d\n' % (i, i) for i in range(nlines)]
+    nlines = 3200 if big else rnd.choice([2, 4, 16])      # big: a very large cell, more than 100 000 characters of source (an embedded table)
+    lines = ['stmt_%02d = %d\n' % (i, i) if nlines < 100 else 'row_%04d = %d  # padding padding\n' % (i, i) for i in range(nlines)]
     cells = [nbspace.code_cell(''.join(lines)), nbspace.md_cell('# Title\n\nSome text.\n')]
-    b = nbspace.notebook(cells, rnd.choice([5, 5, 4]))
+    # (the very large cell only with cell ids: without them nbdime aligns cells by character-level similarity of the whole sources,
+    # which takes minutes at this size)
+    b = nbspace.notebook(cells, 5 if big else rnd.choice([5, 5, 4]))
     ks = sorted(rnd.sample(range(nlines), min(nlines, rnd.choice([1, 1, 2, 3]))))
     l, r = copy.deepcopy(b), copy.deepcopy(b)
     ll, rl = list(lines), list(lines)
@@ -39,7 +41,7 @@ def _job(job):
     out, cnt, keys, sample = [], 0, set(), None
     args = mergespace.args_for()
     with mergespace.renderer_env(renderer):
-        for ti, (b, l, r) in enumerate(nbspace.triples(seed, n, max_edits=3)):
+        for ti, (b, l, r) in enumerate(nbspace.triples(seed, max(n, 0), max_edits=3)):
             try:
                 m, dec = merge_notebooks(b, l, r, args)
             except Exception:
@@ -48,8 +50,9 @@ def _job(job):
             keys.add(hash((nbspace.canon(b), nbspace.canon(l), nbspace.canon(r), renderer)))
             for p, k, d in mo.c07_case(b, l, r, m, dec):
                 out.append((k, d + ' (renderer=%s)' % renderer, {'seed': seed, 'index': ti, 'n': n, 'renderer': renderer, 'flag': False}))
-        for fi in range(n // 2):
-            b, l, r, variants = flag_case(rnd)
+        # n < 0: the one very large cell of this run (ten seconds of diffing: once, under the helper as installed)
+        for fi in range(n // 2 if n > 0 else 1):
+            b, l, r, variants = flag_case(rnd, big=n < 0)
             try:
                 m, dec = merge_notebooks(b, l, r, args)
             except Exception as exc:
@@ -85,6 +88,7 @@ def run(res):
     for rk, rend in enumerate(('git', 'diff3', 'builtin', 'diff3only', 'diff', 'gitonly')):
         for s in range((16 if rk < 3 else 4) if q else 48):
             jobs.append((res.seed * 7001 + s + 100 * rk, 200 if q else 600, rend))
+    jobs.append((res.seed * 7001 + 999, -1, 'git'))
     seen = set()
     for cnt, fails, keys, sample in common.pmap(_job, jobs):
         res.evaluations += cnt
